@@ -453,7 +453,7 @@ def build(prog, env=None, taps=None, path=()):
     return [build_node(n, env, taps, path + (k,)) for k, n in enumerate(prog)]
 
 
-def run_mux(prog, items, env=None, taps=None, store_factory=None, snap=None):
+def run_mux(prog, items, env=None, taps=None, store_factory=None, snap=None, again=None):
     """items -> Snap, through with_store(...) on a plain source (one top-level key)."""
     from .common import Snap, subscribe
     ops_ = build(prog, env, taps)
@@ -461,7 +461,13 @@ def run_mux(prog, items, env=None, taps=None, store_factory=None, snap=None):
         w = rs.state.with_memory_store(ops_)
     else:
         w = rs.state.with_store(rs.state.StoreManager(store_factory=store_factory), ops_)
-    return subscribe(rx.from_(items).pipe(w), snap or Snap())
+    obs = rx.from_(items).pipe(w)
+    first = subscribe(obs, snap or Snap())
+    if again is not None:
+        # the SAME observable subscribed a second time (ops.repeat / retry, a second observer): every
+        # subscription owes the same events, so per-key state must belong to the subscription
+        subscribe(obs, again)
+    return first
 
 
 def run_plain(prog, items, env=None, snap=None):
